@@ -31,6 +31,11 @@ pub enum Op {
     /// that many idle connections (no record, no request) are held open while one attributed connection is opened, used and
     /// closed: a listener under load must still attribute (or refuse) every connection it accepts
     Flood { n: u16, ident: u8 },
+    /// two attributed connections of an elevated caller, one after the other, whose records name DIFFERENT endpoints of the same
+    /// host address (WireServer 168.63.129.16:80 / HostGAPlugin 168.63.129.16:32526; bit 0 of `order`: which comes first); the
+    /// first one sends `first_requests` requests (0 = it goes away without having sent anything) and is closed; every request of
+    /// the second must arrive at ITS recorded endpoint
+    Pair { order: u8, first_requests: u8 },
 }
 
 #[derive(Clone, Debug, Serialize, Deserialize, Hash)]
@@ -46,6 +51,7 @@ fn op() -> impl Strategy<Value = Op> {
         10 => (0u8..4).prop_map(|slot| Op::Close { slot }),
         5 => prop::collection::vec(0u8..IDENTS, 2..9).prop_map(|idents| Op::Batch { idents }),
         1 => (prop_oneof![3 => 1030u16..1200, 1 => 200u16..1030], 0u8..IDENTS).prop_map(|(n, ident)| Op::Flood { n, ident }),
+        6 => (0u8..4, prop_oneof![2 => Just(0u8), 1 => Just(1u8), 1 => Just(2u8)]).prop_map(|(order, first_requests)| Op::Pair { order, first_requests }),
     ]
 }
 
@@ -53,7 +59,7 @@ pub fn strategy() -> impl Strategy<Value = Case> {
     prop::collection::vec(op(), 1..24).prop_map(|ops| Case { ops })
 }
 
-pub const RULE: &str = "generator: histories (1-23 ops) over 4 connection slots and 5 identities: Open{fresh port | the port last used by a slot (that connection is reset with SO_LINGER 0 first and the new socket binds the same port), a quarter of the opens stay idle (no request follows the connect: the record must be consumed at accept all the same, within 5 s), 12% are reset by the client right after the handshake (same expectation), in 15% of the attributed opens the record names an unreachable destination so that the proxy's own connect to the host fails at accept time, with a record for identity k or without}, Request{slot, /only/<j>; 20%: the host closes its connection with the proxy right after answering; 50%: the Host header names another endpoint than the recorded one}, Overwrite{slot's port gets a new record while its connection is open}, Close, Batch{2-8 connections opened concurrently from threads, each with its own identity}, Flood{200-1199 idle connections are held open while one attributed connection is opened, used and closed}. Identities differ in uid (generated passwd), process (helper executables) and elevation; the IMDS rule set (enforce, default deny) grants /only/<k> to identity k only, so every decision identifies whose claims were used, and the forwarded claims header gives the elevation bit. oracle: no request ever arrives at a host other than the one the kernel recorded for its connection (after a host hang-up a 5xx without relay is accepted); model port -> pending record; at accept the record moves to the connection and leaves the map (trace shows lookup then remove; the stand-in map has no entry for the port afterwards); every request on a connection is decided with that connection's identity regardless of later overwrites; a connection from a reused port without a fresh record gets 421 on every request. non-trivial: history with a port reuse without a fresh record after an attributed connection, or >= 2 requests on one connection with an overwrite in between, or a batch >= 4; distinct by hash of the history.";
+pub const RULE: &str = "generator: histories (1-23 ops) over 4 connection slots and 5 identities: Open{fresh port | the port last used by a slot (that connection is reset with SO_LINGER 0 first and the new socket binds the same port), a quarter of the opens stay idle (no request follows the connect: the record must be consumed at accept all the same, within 5 s), 12% are reset by the client right after the handshake (same expectation), in 15% of the attributed opens the record names an unreachable destination so that the proxy's own connect to the host fails at accept time, with a record for identity k or without}, Request{slot, /only/<j>; 20%: the host closes its connection with the proxy right after answering; 50%: the Host header names another endpoint than the recorded one}, Overwrite{slot's port gets a new record while its connection is open}, Close, Batch{2-8 connections opened concurrently from threads, each with its own identity}, Flood{200-1199 idle connections are held open while one attributed connection is opened, used and closed}, Pair{two connections of an elevated caller, one after the other, whose records name the two endpoints of one host address (WireServer / HostGAPlugin), the first one sending 0-2 requests before it is closed (FIN or reset)}. Identities differ in uid (generated passwd), process (helper executables) and elevation; the IMDS rule set (enforce, default deny) grants /only/<k> to identity k only, so every decision identifies whose claims were used, and the forwarded claims header gives the elevation bit. oracle: no request ever arrives at a host other than the one the kernel recorded for its connection (after a host hang-up a 5xx without relay is accepted); model port -> pending record; at accept the record moves to the connection and leaves the map (trace shows lookup then remove; the stand-in map has no entry for the port afterwards); every request on a connection is decided with that connection's identity regardless of later overwrites; a connection from a reused port without a fresh record gets 421 on every request. non-trivial: history with a port reuse without a fresh record after an attributed connection, or >= 2 requests on one connection with an overwrite in between, or a batch >= 4; distinct by hash of the history.";
 
 pub fn ident_rec(k: u8) -> Rec {
     Rec { uid_sel: k % IDENTS, helper_sel: k % IDENTS, is_root: k % IDENTS == 0, dest: DestSel::Imds }
@@ -318,6 +324,51 @@ pub fn eval(rig: &Rig, case: &Case, stats: &mut Stats) -> Outcome {
                 if let Some(c) = slots[s].conn.take() {
                     crate::rawhttp::close_abortive(c.stream);
                 }
+            }
+            Op::Pair { order, first_requests } => {
+                stats.class(if *first_requests == 0 { "pair:first-connection-goes-away-without-a-request" } else { "pair:two-endpoints-of-one-host-address" });
+                let dests = if order & 1 == 0 { [crate::rig::DestSel::WireServer, crate::rig::DestSel::GaPlugin] } else { [crate::rig::DestSel::GaPlugin, crate::rig::DestSel::WireServer] };
+                for (k, dest) in dests.iter().enumerate() {
+                    let rec = Rec { uid_sel: 0, helper_sel: 0, is_root: true, dest: *dest };
+                    let mut conn = match rig.open(Some(rig.entry_of(&rec)), 0) {
+                        Ok(c) => c,
+                        Err(e) => return Outcome::fail("rig:cannot-open-connection", e),
+                    };
+                    let n_req = if k == 0 { *first_requests } else { 2 };
+                    for j in 0..n_req {
+                        let _ = rig.mock.take_requests();
+                        let target = format!("/pair/{}/{}", k, j);
+                        let wire = crate::rawhttp::request_head("GET", &target, &[("Host".into(), b"168.63.129.16".to_vec())]);
+                        if let Err(e) = conn.send(&wire) {
+                            return Outcome::fail("attribution:client-send-failed", e.to_string());
+                        }
+                        let resp = match conn.read("GET", Duration::from_secs(20)) {
+                            Ok(r) => r,
+                            Err(e) => return Outcome::fail("attribution:no-response", format!("step {} {:?}: {} on port {}: {:?}", step, op, target, conn.port, e)),
+                        };
+                        let seen = rig.mock.take_requests();
+                        let want = dest.listener().unwrap_or("");
+                        if let Some(r) = seen.iter().find(|r| r.listener != want) {
+                            return Outcome::fail("attribution:request-delivered-to-another-destination", format!("step {} {:?}: {} on the connection recorded for {:?} (port {}) arrived at the '{}' host", step, op, target, dest, conn.port, r.listener));
+                        }
+                        if resp.status != 200 || seen.len() != 1 {
+                            return Outcome::fail("attribution:own-identity-not-used", format!("step {} {:?}: elevated caller, {} -> status {}, {} relayed to {}", step, op, target, resp.status, seen.len(), want));
+                        }
+                    }
+                    if n_req == 0 {
+                        // accept processing has to finish on its own
+                        std::thread::sleep(Duration::from_millis(15));
+                    }
+                    // the first connection ends in an orderly way (FIN) in half of the cases, with a reset in the others
+                    if order & 2 == 0 {
+                        let _ = conn.stream.shutdown(std::net::Shutdown::Both);
+                        drop(conn);
+                    } else {
+                        crate::rawhttp::close_abortive(conn.stream);
+                    }
+                    std::thread::sleep(Duration::from_millis(5));
+                }
+                nontrivial = true;
             }
             Op::Flood { n, ident } => {
                 stats.class(if *n >= 1024 { "flood:>=1024-idle-connections-held-open" } else { "flood:<1024-idle-connections-held-open" });
